@@ -1,19 +1,26 @@
 #!/usr/bin/env python3
-"""Self-test of the checker: apply one seeded mutation at a time to /repo's working tree, require the
+"""Self-test of the checker: apply one seeded mutation at a time to a scratch clone of /repo, require the
 owning check to raise a VIOLATION naming the expected rule, revert.  Finally require silence on the
-pristine tree.  Not registered in MANIFEST.json (it edits /repo's working tree temporarily).
+pristine tree.  Not registered in MANIFEST.json (it needs scratch copies).
 
-usage: selftest/run.py [mutant-id-substring ...]   (no args: all)
+Each worker owns one clone of /repo's HEAD under /tmp/wt/selftest/w<i> with its own work directory (facts
+cache, cargo target) and evidence directory, selected through VERIF_REPO / VERIF_WORK / VERIF_EVIDENCE; /repo
+itself and /verif/evidence are never touched.  Everything under /tmp/wt/selftest is removed at the end.
+
+usage: selftest/run.py [-j N] [mutant-id-substring ...]   (no filter: all, and RESULTS.md is rewritten)
 """
-import json
 import os
+import queue
+import shutil
 import subprocess
 import sys
+import threading
 import time
 
 HERE = os.path.dirname(os.path.abspath(__file__))
 VERIF = os.path.dirname(HERE)
 REPO = "/repo"
+SCRATCH = "/tmp/wt/selftest"
 sys.path.insert(0, HERE)
 import mutants  # noqa
 mutants.load_seeded()
@@ -24,16 +31,11 @@ def sh(cmd, **kw):
     return subprocess.run(cmd, shell=True, text=True, stdout=subprocess.PIPE, stderr=subprocess.STDOUT, **kw)
 
 
-def clean():
-    r = sh("git -C %s status --porcelain --untracked-files=no" % REPO)
-    return r.stdout.strip() == ""
-
-
-def apply(m):
+def apply(m, repo):
     if "patch" in m:
-        r = sh("git -C %s apply %s" % (REPO, m["patch"]))
+        r = sh("git -C %s apply %s" % (repo, m["patch"]))
         return r.returncode == 0, r.stdout
-    p = os.path.join(REPO, m["file"])
+    p = os.path.join(repo, m["file"])
     s = open(p).read()
     n = s.count(m["old"])
     if n != m.get("count", 1):
@@ -43,61 +45,126 @@ def apply(m):
     return True, ""
 
 
-def main():
-    sel = sys.argv[1:]
-    if not clean():
-        print("refusing: /repo has uncommitted changes to tracked files")
-        return 2
-    results = []
-    for m in MUTANTS:
-        if sel and not any(s in m["id"] for s in sel):
-            continue
+class Worker:
+    def __init__(self, i):
+        self.dir = os.path.join(SCRATCH, "w%d" % i)
+        self.repo = os.path.join(self.dir, "repo")
+        self.work = os.path.join(self.dir, "work")
+        self.evid = os.path.join(self.dir, "evidence")
+        shutil.rmtree(self.dir, ignore_errors=True)
+        os.makedirs(self.dir)
+        r = sh("git clone -q %s %s" % (REPO, self.repo))
+        assert r.returncode == 0, r.stdout
+        os.makedirs(self.work)
+        # warm cargo target directories (third-party dependencies already compiled)
+        for d in ("target", "witness-target"):
+            src = os.path.join(VERIF, ".work", d)
+            if os.path.isdir(src):
+                sh("cp -a --reflink=auto %s %s" % (src, os.path.join(self.work, d)))
+        self.env = dict(os.environ, VERIF_REPO=self.repo, VERIF_WORK=self.work, VERIF_EVIDENCE=self.evid)
+
+    def check(self, pid, tier="quick"):
+        return sh("./check %s --tier %s" % (pid, tier), cwd=VERIF, env=self.env)
+
+    def run(self, m):
         t = time.time()
-        ok, msg = apply(m)
+        ok, msg = apply(m, self.repo)
         if not ok:
-            results.append((m["id"], "APPLY-FAILED", msg))
-            sh("git -C %s checkout -- ." % REPO)
-            print("%-60s APPLY-FAILED %s" % (m["id"], msg), flush=True)
-            continue
+            sh("git -C %s checkout -- ." % self.repo)
+            return (m["id"], "APPLY-FAILED", msg, time.time() - t)
         try:
             outs = []
-            caught = False
-            named = False
+            caught = named = False
             for pid in m["props"]:
-                r = sh("./check %s --tier %s" % (pid, m.get("tier", "quick")), cwd=VERIF)
+                r = self.check(pid, m.get("tier", "quick"))
                 outs.append(r.stdout)
                 if r.returncode == 1 and "VIOLATION property=%s" % pid in r.stdout:
                     caught = True
                     if any(e in r.stdout for e in m["expect"]):
                         named = True
                 if "does not compile" in r.stdout or "failed on /repo" in r.stdout:
-                    caught = False
-                    named = False
+                    caught = named = False
                     outs.append("MUTANT DOES NOT COMPILE")
             status = "CAUGHT" if (caught and named) else ("CAUGHT-OTHER-RULE" if caught else "MISSED")
-            detail = ""
-            if status != "CAUGHT":
-                detail = "\n".join(outs)[-1500:]
-            results.append((m["id"], status, detail))
+            if m.get("expected_outcome") == "MISSED" and status == "MISSED":
+                status = "MISSED-AS-DOCUMENTED"
+            detail = "" if status in ("CAUGHT", "MISSED-AS-DOCUMENTED") else "\n".join(outs)[-1500:]
+            return (m["id"], status, detail, time.time() - t)
         finally:
-            sh("git -C %s checkout -- ." % REPO)
-        print("%-60s %-18s %.1fs" % (m["id"], results[-1][1], time.time() - t), flush=True)
-        if results[-1][2]:
-            print("    " + results[-1][2].replace("\n", "\n    "))
-    assert clean()
-    # pristine tree must be silent
-    props = sorted({p for m in MUTANTS for p in m["props"] if not sel or any(s in m["id"] for s in sel)})
+            sh("git -C %s checkout -- ." % self.repo)
+
+
+def main():
+    args = sys.argv[1:]
+    jobs = 8
+    if args and args[0] == "-j":
+        jobs = int(args[1])
+        args = args[2:]
+    sel = args
+    todo = [m for m in MUTANTS if not sel or any(s in m["id"] for s in sel)]
+    jobs = max(1, min(jobs, len(todo)))
+    q = queue.Queue()
+    for i, m in enumerate(todo):
+        q.put((i, m))
+    results = [None] * len(todo)
+    workers = [Worker(i) for i in range(jobs)]
+    lock = threading.Lock()
+
+    def loop(w):
+        while True:
+            try:
+                i, m = q.get_nowait()
+            except queue.Empty:
+                return
+            r = w.run(m)
+            results[i] = r
+            with lock:
+                print("%-60s %-20s %.1fs" % (r[0], r[1], r[3]), flush=True)
+                if r[2]:
+                    print("    " + r[2].replace("\n", "\n    "), flush=True)
+
+    ths = [threading.Thread(target=loop, args=(w,)) for w in workers]
+    for t in ths:
+        t.start()
+    for t in ths:
+        t.join()
+    results = [r[:3] for r in results]
+    # pristine tree must be silent (checked in a clone of HEAD, same machinery)
+    props = sorted({p for m in todo for p in m["props"]})
+    pq = queue.Queue()
+    for p in props:
+        pq.put(p)
+    pres = {}
+
+    def ploop(w):
+        while True:
+            try:
+                pid = pq.get_nowait()
+            except queue.Empty:
+                return
+            r = w.check(pid)
+            st = "SILENT" if r.returncode == 0 and "VIOLATION" not in r.stdout else "ALARM-ON-PRISTINE"
+            pres[pid] = (st, "" if st == "SILENT" else r.stdout[-1500:])
+    ths = [threading.Thread(target=ploop, args=(w,)) for w in workers[:4]]
+    for t in ths:
+        t.start()
+    for t in ths:
+        t.join()
     for pid in props:
-        r = sh("./check %s" % pid, cwd=VERIF)
-        st = "SILENT" if r.returncode == 0 and "VIOLATION" not in r.stdout else "ALARM-ON-PRISTINE"
-        results.append(("pristine:%s" % pid, st, "" if st == "SILENT" else r.stdout[-1500:]))
+        st, d = pres[pid]
+        results.append(("pristine:%s" % pid, st, d))
         print("%-60s %s" % ("pristine:%s" % pid, st), flush=True)
+        if d:
+            print("    " + d.replace("\n", "\n    "))
+    shutil.rmtree(SCRATCH, ignore_errors=True)
     if not sel:
         with open(os.path.join(HERE, "RESULTS.md"), "w") as fh:
-            fh.write("# Self-test results (selftest/run.py)\n\n| mutant | outcome |\n|---|---|\n")
+            fh.write("# Self-test results (selftest/run.py)\n\n| mutant | checks | outcome |\n|---|---|---|\n")
+            by = {m["id"]: m for m in todo}
             for i, st, _ in results:
-                fh.write("| %s | %s |\n" % (i, st))
-    bad = [r for r in results if r[1] not in ("CAUGHT", "SILENT")]
+                fh.write("| %s | %s | %s |\n" % (i, " ".join(by[i]["props"]) if i in by else "", st))
+    bad = [r for r in results if r[1] not in ("CAUGHT", "SILENT", "MISSED-AS-DOCUMENTED")]
+    print("%d mutants, %d not caught / alarms" % (len(todo), len(bad)))
     return 1 if bad else 0
 
 
